@@ -334,6 +334,9 @@ func runFanout(rc *RunCtx, o fanOpts) {
 				nids[j] = el.NodeID(s)
 			}
 			err := broker.RegisterPipeline(el.Pipeline{PipelineID: el.PipelineID(pid), EventType: el.EventType(typ), NodeIDs: nids})
+			for j := range nids {
+				nids[j] = "scribbled-over-by-the-caller" // the slice is the caller's again once the call has returned
+			}
 			ok := model.RegisterPipeline(typ, pid, ids, "", false)
 			graphKnown[typ] = true
 			desc.History = append(desc.History, fmt.Sprintf("RegisterPipeline(%s,%s,%v) err=%v", typ, pid, ids, err))
